@@ -42,8 +42,9 @@ Proof. vm_compute. repeat split. discriminate. Qed.
 
 (* ---- width > 0 (TextWrappingSerializer, Ws/Wrap.v) ----------------------------------------------------------
 
-   C03_wrapped (below) is the full statement: for EVERY tree, mixed content included, every width >= 1, every
-   indentation of spaces and tabs, both align settings, serialization from the root or from any sub-tree of any
+   C03_wrapped (below) is the full statement: for EVERY tree, mixed content included, every width >= 1, EVERY
+   indentation string FormatOptions accepts (spaces, tabs, newlines), both align settings, serialization from the
+   root or from any sub-tree of any
    document T (the output of a sub-tree serialization with a line width depends on what follows the sub-tree in
    T - `fetch_following` leaves the sub-tree - and the theorem holds for every T; the precondition is that the
    serialized sub-tree on its own is reduced), and for every fitting oracle `req` in place of _required_space that
@@ -52,11 +53,12 @@ Proof. vm_compute. repeat split. discriminate. Qed.
    The hypothesis on the oracle is necessary (C03_wrapped_oracle_hypothesis_needed): when a line break consumes
    the trailing space of a text the line is full, and an oracle that lets the next element fit into no space glues
    it to the text.
-   The guard `no_lf ind` (the indentation contains no newline; decidable) is necessary as well: FormatOptions
-   accepts every str.isspace indentation, and with a newline in it the code violates the property
-   (C03_wrapped_refuted, finding C03-newline-in-indentation, open): _line_offset subtracts
-   level * len(indentation) from the writer's offset, which counts from the last newline - the one inside the
-   indentation.  At width 0 such indentations are covered by C03_width0.
+   Indentation strings that contain newlines: the writer drops the leading newlines of what it writes at offset 0
+   and counts its offset from the last newline written, so the lines come out with the indentation minus its
+   leading newlines, and _line_offset subtracts the part of level * indentation behind its last newline (Wrap.ilen /
+   tail_line, as of e1f59b7).  Before e1f59b7 it subtracted all of it and the property was false (finding
+   C03-newline-in-indentation, fixed; regression Example C03_wrapped_lf_regression); the proof handles the dropped
+   newlines at the level of what `collapse` can see (Ws/WrapTextStep.v: WR1, lstrip_lf_collapse, emit_off_line).
    It was false of the code before b3af6c0 (finding C03-preserved-newline-offset, fixed); the former witnesses are
    the regression Example below.
    Proof (Ws/WrapVariant.v, Ws/WrapTextStep.v, Ws/WrapFull.v): the writer invariant `winv` (offset 0 only after a
@@ -74,20 +76,20 @@ Example C03_wrapped_regression :
   reduce_model (wrap_seen [SP; SP] false 5%Z c03_witness_comment []) = c03_witness_comment.
 Proof. split; [exact (proj1 (proj2 (proj2 c03_witness_regression)))|exact (proj2 (proj2 (proj2 (proj2 (proj2 c03_witness_regression)))))]. Qed.
 
-(* at full strength (every whitespace indentation) the property is false of the unchanged code: <r>a b <i/></r>, indentation
-   "\n", width 1 is written as <r>(LF)a(LF)b<i/>(LF)</r> and re-read as <r>a b<i/></r> *)
-Theorem C03_wrapped_refuted : exists ind align width T,
-  ws_indent ind = true /\ (1 <= width)%Z /\ reduced T /\ is_text T = false /\
-  reduce_model (wrap_seen ind align width T []) <> T.
+(* false of the code before e1f59b7: <r>a b <i/></r>, indentation "\n", width 1 was written as <r>(LF)a(LF)b<i/>(LF)</r> and
+   re-read as <r>a b<i/></r>; now <r>(LF)a(LF)b(LF)<i/>(LF)</r> *)
+Example C03_wrapped_lf_regression :
+  reduced c03_lf_witness /\ ws_indent [LF] = true /\ no_lf [LF] = false /\
+  reduce_model (wrap_seen [LF] false 1%Z c03_lf_witness []) = c03_lf_witness /\
+  reduce_model (wrap_seen [SP; LF] false 1%Z c03_lf_witness []) = c03_lf_witness /\
+  reduce_model (wrap_seen [LF; SP] false 1%Z c03_lf_witness []) = c03_lf_witness.
 Proof.
-  exact (ex_intro _ [LF] (ex_intro _ false (ex_intro _ 1%Z (ex_intro _ c03_lf_witness
-    (conj (proj1 (proj2 (proj2 c03_lf_indentation_refuted))) (conj (Z.le_refl 1) (conj (proj1 c03_lf_indentation_refuted)
-    (conj (proj1 (proj2 c03_lf_indentation_refuted)) (proj1 (proj2 (proj2 (proj2 (proj2 (proj2 c03_lf_indentation_refuted)))))))))))))).
+  exact (conj (proj1 c03_lf_indentation_regression) (conj (proj1 (proj2 (proj2 c03_lf_indentation_regression)))
+        (conj (proj1 (proj2 (proj2 (proj2 c03_lf_indentation_regression)))) (proj2 (proj2 (proj2 (proj2 (proj2 c03_lf_indentation_regression)))))))).
 Qed.
-Print Assumptions C03_wrapped_refuted.
 
-(* THE STATEMENT under the decidable guard `no_lf ind = true`: all trees, every admissible oracle, root or sub-tree *)
-Theorem C03_wrapped : forall ind align width req T, ws_indent ind = true -> no_lf ind = true -> (1 <= width)%Z ->
+(* THE STATEMENT: all trees, every indentation string, every admissible oracle, root or sub-tree *)
+Theorem C03_wrapped : forall ind align width req T, ws_indent ind = true -> (1 <= width)%Z ->
   (forall rp u x, get T rp = Some x -> is_text x = false -> (u <= 0)%Z -> req rp u = None) ->
   forall t sr, get T sr = Some t -> reduced t -> is_text t = false ->
   reduce_model (seen (wrap_chunk ind align width req sr (after_path T sr) t)) = t.
@@ -96,18 +98,11 @@ Print Assumptions C03_wrapped.
 
 (* with the real heuristics: NodeBase.serialize(format_options=FormatOptions(align, ind, width)) of the element at sr of T,
    re-read (merging adjacent character data) and reduced, is the element *)
-Theorem C03_wrapped_real : forall ind align width T sr t, ws_indent ind = true -> no_lf ind = true -> (1 <= width)%Z ->
+Theorem C03_wrapped_real : forall ind align width T sr t, ws_indent ind = true -> (1 <= width)%Z ->
   get T sr = Some t -> reduced t -> is_text t = false ->
   reduce_model (wrap_seen ind align width T sr) = t.
 Proof. exact wrap_real_transparent. Qed.
 Print Assumptions C03_wrapped_real.
-
-(* the name BUILDING.md asks for: the property under the guard of the open finding's class *)
-Theorem C03_wrapped_partial : forall ind align width T sr t, ws_indent ind = true -> no_lf ind = true -> (1 <= width)%Z ->
-  get T sr = Some t -> reduced t -> is_text t = false ->
-  reduce_model (wrap_seen ind align width T sr) = t.
-Proof. exact wrap_real_transparent. Qed.
-Print Assumptions C03_wrapped_partial.
 
 (* the hypothesis on the oracle cannot be dropped: with an oracle that lets everything fit, <r>aa bbb <i/>c</r> at width 3
    loses the space before <i/> (the real heuristics put a newline there) *)
@@ -125,8 +120,9 @@ Example C03_wrapped_mixed_example :
   reduce_model (wrap_seen [SP; SP] false 6%Z t []) = t.
 Proof. vm_compute. repeat split. discriminate. Qed.
 
-(* intermediate results, kept: trees in which a text with content only stands first among its siblings ... *)
-Theorem C03_wrapped_first_text : forall ind align width req T, ws_indent ind = true -> no_lf ind = true -> (1 <= width)%Z ->
+(* intermediate results, kept (C03_wrapped_no_mixed / C03_wrapped_text_only further below still carry the guard `no_lf ind`
+   of their first proofs; C03_wrapped subsumes them without it): trees in which a text with content only stands first among its siblings ... *)
+Theorem C03_wrapped_first_text : forall ind align width req T, ws_indent ind = true -> (1 <= width)%Z ->
   (forall rp u x, get T rp = Some x -> is_text x = false -> (u <= 0)%Z -> req rp u = None) ->
   forall t sr, get T sr = Some t -> reduced t -> is_text t = false -> first_text t = true ->
   reduce_model (seen (wrap_chunk ind align width req sr (after_path T sr) t)) = t.
@@ -134,14 +130,14 @@ Proof. exact wrap_first_text_transparent. Qed.
 Print Assumptions C03_wrapped_first_text.
 
 (* ... and the real one: NodeBase.serialize(format_options=FormatOptions(align, ind, width)) of the element at sr of T *)
-Theorem C03_wrapped_real_first_text : forall ind align width T sr t, ws_indent ind = true -> no_lf ind = true -> (1 <= width)%Z ->
+Theorem C03_wrapped_real_first_text : forall ind align width T sr t, ws_indent ind = true -> (1 <= width)%Z ->
   get T sr = Some t -> reduced t -> is_text t = false -> first_text t = true ->
   reduce_model (wrap_seen ind align width T sr) = t.
 Proof. exact wrap_real_first_text_transparent. Qed.
 Print Assumptions C03_wrapped_real_first_text.
 
 (* all trees, given the partial-line branch of _serialize_text_over_lines (now proved: over_spec_holds) *)
-Theorem C03_wrapped_if_partial_line : forall ind align width req T, ws_indent ind = true -> no_lf ind = true -> (1 <= width)%Z ->
+Theorem C03_wrapped_if_partial_line : forall ind align width req T, ws_indent ind = true -> (1 <= width)%Z ->
   (forall rp u x, get T rp = Some x -> is_text x = false -> (u <= 0)%Z -> req rp u = None) ->
   over_spec ind width req ->
   forall t sr, get T sr = Some t -> reduced t -> is_text t = false ->
@@ -239,7 +235,7 @@ Proof. exact width0_transparent_ns. Qed.
 Print Assumptions C03_width0_namespaced.
 
 (* T' : the document as the serializer of the sub-tree at sr names it *)
-Theorem C03_wrapped_namespaced : forall pf decl ind align width T' sr t, ws_indent ind = true -> no_lf ind = true ->
+Theorem C03_wrapped_namespaced : forall pf decl ind align width T' sr t, ws_indent ind = true ->
   (1 <= width)%Z -> plain_decl decl = true ->
   get T' sr = Some (qual_root pf decl t) -> reduced t -> is_text t = false ->
   reduce_model (wrap_seen ind align width T' sr) = qual_root pf decl t.
